@@ -27,5 +27,9 @@ CHECK = {
         "udp": {"pkg": "server", "run": "TestVerifC10UDP", "harness": _SRV_H,
                 "rewrite": _SRV_RW, "gomaxprocs": 2,
                 "budget_s": {"quick": 60, "thorough": 300}},
+        # the stream staging buffer at every boundary: pipelined replies arrive whole, one per query, in order
+        "stream": {"pkg": "server", "run": "TestVerifC10Stream",
+                   "harness": {"server": ["zz_verif_cstream_test.go"]},
+                   "stub_tests": ["server"], "shards": 8, "budget_s": {"quick": 40, "thorough": 240}},
     },
 }
